@@ -9,6 +9,7 @@ WORK="${VERIF_WORK:-$HOME/.cache/verif-work}/run.$$"
 export VERIF_SCRATCH="$WORK/scratch"
 trap 'rm -rf "$WORK"' EXIT
 mkdir -p "$WORK"
+[ -f "$HERE/bin/crashpoint.so" ] || gcc -O2 -fPIC -shared -o "$HERE/bin/crashpoint.so" "$HERE/mc/crash/crashpoint.c" -ldl
 "$HERE/mc/build.sh" "$WORK" || { echo "check.sh: build failed (internal error, not a verdict)"; exit 2; }
-VERIF_KNOWN="$HERE/known_findings.json" VERIF_DIR="${VERIF_OUT:-$HERE}" "$WORK/vcheck" check "$ID" "$TIER" "$@"
+VERIF_BIN="$HERE/bin" VERIF_KNOWN="$HERE/known_findings.json" VERIF_DIR="${VERIF_OUT:-$HERE}" "$WORK/vcheck" check "$ID" "$TIER" "$@"
 exit $?
